@@ -16,7 +16,7 @@
 
 from __future__ import annotations
 
-from collections.abc import Iterator
+from types import NotImplementedType
 from typing import Any
 
 import cirq
@@ -59,11 +59,14 @@ class IonQTargetGateset(cirq.TwoQubitCompilationTargetGateset):
         )
         self.atol = atol
 
-    def _decompose_single_qubit_operation(self, op: cirq.Operation, _) -> Iterator[cirq.OP_TREE]:
+    def _decompose_single_qubit_operation(
+        self, op: cirq.Operation, _
+    ) -> NotImplementedType | cirq.OP_TREE:
+        if not cirq.has_unitary(op):
+            return NotImplemented
         qubit = op.qubits[0]
         mat = cirq.unitary(op)
-        for gate in cirq.single_qubit_matrix_to_gates(mat, self.atol):
-            yield gate(qubit)
+        return [gate(qubit) for gate in cirq.single_qubit_matrix_to_gates(mat, self.atol)]
 
     def _decompose_two_qubit_operation(self, op: cirq.Operation, _) -> cirq.OP_TREE:
         if not cirq.has_unitary(op):
